@@ -24,8 +24,10 @@ VARIABLES l,      \* next trace line
           meth,   \* method name of the current execution
           st,     \* codec state (contains the compressed input: kept out of the fingerprint)
           live,   \* FALSE once an undetermined step was seen
-          calls   \* number of dtype->read calls validated so far (all executions)
-tvars == <<l, meth, st, live, calls>>
+          calls,  \* number of dtype->read calls validated so far (all executions)
+          exp,    \* three-way agreement: the bytes the encoder's command list denotes (<<-1>> = none given)
+          opos    \* output position of the current execution
+tvars == <<l, meth, st, live, calls, exp, opos>>
 
 Null == INSTANCE Codec_Null
 Lzs  == INSTANCE Codec_Lzs
@@ -73,16 +75,28 @@ CRead(m, s) ==
 
 IsUndet(r) == "undetermined" \in DOMAIN r
 
-TInit == l = 1 /\ meth = "" /\ st = [input |-> <<>>] /\ live = FALSE /\ calls = 0
+TInit == l = 1 /\ meth = "" /\ st = [input |-> <<>>] /\ live = FALSE /\ calls = 0 /\ exp = <<-1>> /\ opos = 0
 
 TNew == /\ IsEvent("New")
         /\ meth' = Ev.method
         /\ st' = CInit(Ev.method, Ev.data)
         /\ live' = TRUE
+        /\ exp' = IF "expect" \in DOMAIN Ev THEN Ev.expect ELSE <<-1>>
+        /\ opos' = 0
         /\ UNCHANGED calls
 
-(* a = [st, live, ok, i] *)
-TReadStep(a, chunk) ==
+(* three-way agreement: independent encoder -> C decoder -> this definition.  The chunk the C decoder
+   produced must be the corresponding slice of what the command list denotes (LZ77 semantics,
+   computed by the encoder side); beyond the end of the denoted bytes nothing is required (a decoder
+   may run on, e.g. -pm1- on implicit zero bits - the front end cuts at the declared length). *)
+Denoted(pos, chunk) ==
+  exp = <<-1>> \/ LET n == IF pos + Len(chunk) <= Len(exp) THEN Len(chunk) ELSE IF pos < Len(exp) THEN Len(exp) - pos ELSE 0
+                  IN SubSeq(chunk, 1, n) = SubSeq(exp, pos + 1, pos + n)
+
+(* a = [st, live, ok, i, pos] *)
+TReadStep(a0, chunk) ==
+  LET a == [a0 EXCEPT !.pos = @ + Len(chunk),
+                      !.ok = @ /\ Chk(<<"three-way: chunk differs from the bytes the command list denotes, at output offset", a0.pos>>, Denoted(a0.pos, chunk))] IN
   IF ~a.ok \/ ~a.live THEN [a EXCEPT !.i = @ + 1]
   ELSE LET r == CRead(meth, a.st) IN
        IF IsUndet(r)
@@ -93,16 +107,21 @@ TReadStep(a, chunk) ==
                       !.ok = Chk(<<"chunk", a.i, "model", r.out, "trace", chunk>>, r.out = chunk)]
 
 TRead == /\ IsEvent("Read")
-         /\ LET a == FoldLeft(TReadStep, [st |-> st, live |-> live, ok |-> TRUE, i |-> 1], Ev.inner)
+         /\ LET a == FoldLeft(TReadStep, [st |-> st, live |-> live, ok |-> TRUE, i |-> 1, pos |-> opos], Ev.inner)
             IN /\ a.ok
-               /\ st' = a.st /\ live' = a.live
+               /\ st' = a.st /\ live' = a.live /\ opos' = a.pos
                /\ calls' = calls + Len(Ev.inner)
-         /\ UNCHANGED meth
+         /\ UNCHANGED <<meth, exp>>
 
-TSkip == /\ l <= Len(Trc) /\ Ev.e \in {"Reset", "Monitor", "Len", "Crc", "End"} /\ l' = l + 1
-         /\ UNCHANGED <<meth, st, live, calls>>
+\* End{complete}: when the caller asked for everything, everything the command list denotes (cut at
+\* the declared length, carried as "want") must have come out
+TEnd == /\ IsEvent("End")
+        /\ Chk("three-way: output shorter than what the command list denotes", ("want" \in DOMAIN Ev) => opos >= Ev.want)
+        /\ UNCHANGED <<meth, st, live, calls, exp, opos>>
+TSkip == /\ l <= Len(Trc) /\ Ev.e \in {"Reset", "Monitor", "Len", "Crc"} /\ l' = l + 1
+         /\ UNCHANGED <<meth, st, live, calls, exp, opos>>
 
-TNext == TNew \/ TRead \/ TSkip
+TNext == TNew \/ TRead \/ TEnd \/ TSkip
 \* the codec state is a function of the consumed trace prefix: only the line number is fingerprinted
 TView == <<l, meth, live, calls>>
 TSpec == TInit /\ [][TNext]_tvars
